@@ -5,10 +5,19 @@ from common import *
 
 def run_property(prop, tier, seed):
     parts = []
-    import props_r
-    if prop in props_r.R_PROPS:
+    import props_r, run_k
+    use = os.environ.get("VERIF_ENGINES", "RKM")
+    if prop in props_r.R_PROPS and "R" in use:
         import run_r
         parts.append(run_r.run(prop, tier, seed))
+    if prop in run_k.K_PROPS and "K" in use:
+        parts.append(run_k.run(prop, tier, seed))
+    try:
+        import run_m
+        if prop in run_m.M_PROPS and "M" in use:
+            parts.append(run_m.run(prop, tier, seed))
+    except ImportError:
+        pass
     if not parts:
         raise ToolFailure(f"no check registered for {prop}")
     return parts
